@@ -947,3 +947,88 @@ package nutsdb
 //@   ensures pendingOK(tx)
 //@   modifies[C01,C08,C12] tx.pendingWrites, elems(tx.pendingWrites)
 //@   safety[C20] panics
+
+// ---------------------------------------------------------------------------
+// B+ tree scans (C01, C03). The global ordering of the tree is covered by the bounded stand-in BS1;
+// here the scan loops themselves are under contract: where the walk starts in the first leaf, which
+// keys are collected, and how offset and limit are consumed. Slice bounds inside nodes are assumed
+// (no `safety panics` on these functions yet: the node invariant is not under contract).
+//@ extern regexp.Compile (expr) (re, err)
+//@   ensures err == nil ==> re != nil
+//@   modifies nothing
+//@ spec func reMatch(re *regexp.Regexp, s string) bool
+//@ extern regexp.Regexp.Match (re, b) (ok)
+//@   ensures ok == reMatch(re, string(b))
+//@   modifies nothing
+//@   pure
+//@ extern bytes.TrimPrefix (s, prefix) (r)
+//@   ensures hasPrefix(string(s), string(prefix)) ==> string(s) == concat(string(prefix), string(r))
+//@   ensures !hasPrefix(string(s), string(prefix)) ==> string(r) == string(s)
+//@   modifies nothing
+//@   pure
+
+//@ func BPTree.FindLeaf
+//@   assumed descent to the leaf responsible for a key (bounded stand-in BS1)
+//@   requires t != nil
+//@   modifies nothing
+//@   pure
+
+//@ func getRecordWrapper
+//@   requires 0 <= numFound && numFound <= len(pointers)
+//@   ensures[C03] numFound > 0 ==> err == nil && len(records) == numFound
+//@   ensures[C03] numFound == 0 ==> err == ErrScansNoResult && records == nil
+//@   modifies nothing
+//@   loops 1
+//@   loop 1: modifies elems(records)
+//@   loop 1: invariant 0 <= i && i <= numFound
+//@   loop 1: invariant len(records) == i
+//@   loop 1: invariant numFound == old(numFound)
+//@   loop 1: invariant fresh(records)
+
+//@ func BPTree.PrefixScan
+//@   requires t != nil
+//@   ensures[C03] err == nil && limitNum > 0 ==> len(records) <= limitNum
+//@   ensures[C03] off >= 0 && (offsetNum >= 0 ==> off <= offsetNum)
+//@   ensures[C03] err == nil && offsetNum >= 0 ==> off == offsetNum
+//@   modifies nothing
+//@   loops 3
+//@   loop 1: modifies nothing
+//@   loop 1: invariant n == pre(n) && prefix == old(prefix) && 0 <= j && (forall k int :: 0 <= k && k < j ==> cmp(n.Keys[k], prefix) < 0)
+//@   loop 2: modifies nothing
+//@   loop 2: invariant prefix == old(prefix) && offsetNum == old(offsetNum) && limitNum == old(limitNum) && 0 <= coff && (offsetNum >= 0 ==> coff <= offsetNum)
+//@   loop 2: invariant 0 <= numFound && numFound == len(keys) && numFound == len(pointers)
+//@   loop 2: invariant (limitNum > 0 ==> numFound <= limitNum) && (numFound > 0 ==> coff >= offsetNum)
+//@   loop 2: invariant limitNum > 0 && numFound == limitNum ==> !scanFlag
+//@   loop 2: invariant sinceLoop(keys)
+//@   loop 2: invariant sinceLoop(pointers)
+//@   loop 3: modifies elems(keys), elems(pointers)
+//@   loop 3: invariant prefix == old(prefix) && offsetNum == old(offsetNum) && limitNum == old(limitNum) && 0 <= coff && (offsetNum >= 0 ==> coff <= offsetNum) &&
+//@        0 <= numFound && numFound == len(keys) && numFound == len(pointers) && (limitNum > 0 ==> numFound < limitNum || (numFound == limitNum && !scanFlag)) && (numFound > 0 ==> coff >= offsetNum) &&
+//@        n == pre(n) && (arr(keys) == arr(pre(keys)) || sinceLoop(keys)) && (arr(pointers) == arr(pre(pointers)) || sinceLoop(pointers))
+//@   branch 3: iff[C01,C03] cmp(n.Keys[j], prefix) < 0
+//@   branch 7: iff[C01,C03] hasPrefix(string(n.Keys[i]), string(prefix))
+//@   at stored keys: assert[C01,C03] len(keys) > 0 ==> keys[len(keys) - 1] == n.Keys[i] && hasPrefix(string(n.Keys[i]), string(prefix)) && coff >= offsetNum
+//@   at stored pointers: assert[C01,C03] len(pointers) > 0 ==> pointers[len(pointers) - 1] == n.pointers[i]
+
+//@ func BPTree.PrefixSearchScan
+//@   requires t != nil
+//@   ensures[C03] err == nil && limitNum > 0 ==> len(records) <= limitNum
+//@   ensures[C03] off >= 0 && (offsetNum >= 0 ==> off <= offsetNum)
+//@   modifies nothing
+//@   loops 3
+//@   loop 1: modifies nothing
+//@   loop 1: invariant n == pre(n) && prefix == old(prefix) && 0 <= j && (forall k int :: 0 <= k && k < j ==> cmp(n.Keys[k], prefix) < 0)
+//@   loop 2: modifies nothing
+//@   loop 2: invariant prefix == old(prefix) && offsetNum == old(offsetNum) && limitNum == old(limitNum) && rgx == pre(rgx) && rgx != nil && 0 <= coff && (offsetNum >= 0 ==> coff <= offsetNum) &&
+//@        0 <= numFound && numFound == len(keys) && numFound == len(pointers) && (limitNum > 0 ==> numFound <= limitNum) && (numFound > 0 ==> coff >= offsetNum) &&
+//@        (limitNum > 0 && numFound == limitNum ==> !scanFlag) && sinceLoop(keys) && sinceLoop(pointers)
+//@   loop 3: modifies elems(keys), elems(pointers)
+//@   loop 3: invariant prefix == old(prefix) && offsetNum == old(offsetNum) && limitNum == old(limitNum) && rgx == pre(rgx) && rgx != nil && 0 <= coff && (offsetNum >= 0 ==> coff <= offsetNum) &&
+//@        0 <= numFound && numFound == len(keys) && numFound == len(pointers) && (limitNum > 0 ==> numFound < limitNum || (numFound == limitNum && !scanFlag)) && (numFound > 0 ==> coff >= offsetNum) &&
+//@        n == pre(n) && (arr(keys) == arr(pre(keys)) || sinceLoop(keys)) && (arr(pointers) == arr(pre(pointers)) || sinceLoop(pointers))
+//@   branch 4: iff[C01,C03] cmp(n.Keys[j], prefix) < 0
+//@   branch 8: iff[C01,C03] hasPrefix(string(n.Keys[i]), string(prefix))
+//@   at call Match: assert[C01,C03] concat(string(prefix), string($arg1)) == string(n.Keys[i])
+//@   at stored keys: assert[C01,C03] len(keys) > 0 ==> keys[len(keys) - 1] == n.Keys[i] && hasPrefix(string(n.Keys[i]), string(prefix)) && coff >= offsetNum &&
+//@        (exists r string :: concat(string(prefix), r) == string(n.Keys[i]) && reMatch(rgx, r))
+//@   at stored pointers: assert[C01,C03] len(pointers) > 0 ==> pointers[len(pointers) - 1] == n.pointers[i]
